@@ -747,7 +747,8 @@ def check_scheme_of_this_call(prog, ctx):
     c = cfg_of(fi)
     tm = Terms(fi.node, max_depth=0)
     me = fi.self_name
-    loops = [n for n in walk_local(fi.node) if isinstance(n, ast.For) and R.self_attr(n.iter, me) == "scheme"]
+    # `for g in self.scheme`, `for i, g in enumerate(self.scheme)`, `for g in list(self.scheme)`, ...
+    loops = [n for n in walk_local(fi.node) if isinstance(n, ast.For) and any(R.self_attr(x, me) == "scheme" for x in ast.walk(n.iter))]
     if not loops:
         raise AnalysisError("anchor vanished: the loop over self.scheme in StandardCombi.perform_operation")
     p_lmin, p_lmax = fi.params[1], fi.params[2]
